@@ -51,9 +51,8 @@ Clear ==
   /\ UNCHANGED <<c, c0>>
   /\ h' = Append(h, [a |-> "clear", b |-> BinSeq(bins')])
 
-\* the same object is initialised again with another range / bin count / mode: it must behave like a fresh one
+\* the same object is initialised again (another or the SAME range / bin count / mode): it must behave like a fresh one
 ReInit(cc) ==
-  /\ cc # c
   /\ c' = cc /\ bins' = Zero(cc) /\ acc' = 0 /\ normed' = FALSE /\ UNCHANGED c0
   /\ h' = Append(h, [a |-> "reinit", n |-> cc.n, m |-> cc.m, t |-> cc.t, per |-> cc.per,
                       s |-> Step(cc), mx |-> MaxOf(cc), b |-> [k \in 1..cc.n |-> 0]])
